@@ -10,8 +10,11 @@ Serials == {"b1", "7f", "80", "00ff", "big"}
 (* the content of a non-data type is DER: one OCTET STRING, one complete SEQUENCE, or two SEQUENCEs back to back (the shape of *)
 (* SpcIndirectDataContent's body); the producer must encapsulate all of them the same way                                      *)
 Shapes(c, s) == IF c \in {"other", "longoid"} /\ s > 0 THEN {"octets", "seq", "seq2"} ELSE {"octets"}
-Init == done = FALSE /\ \E s \in Sizes, c \in Cts, k \in Keys, i \in Issuers, r \in Serials : \E sh \in Shapes(c, s) :
-          cfg = [size |-> s, ct |-> c, shape |-> sh, key |-> k, issuer |-> i, serial |-> r]
+(* when the signing runs: on its own; after an earlier signing that failed in the signer; or overlapped - while this call waits in its   *)
+(* signer (a token that takes its time) another complete signing over other content with another key runs from start to end             *)
+Scheds == {"alone", "after_error", "overlapped"}
+Init == done = FALSE /\ \E s \in Sizes, c \in Cts, k \in Keys, i \in Issuers, r \in Serials, sd \in Scheds : \E sh \in Shapes(c, s) :
+          cfg = [size |-> s, ct |-> c, shape |-> sh, key |-> k, issuer |-> i, serial |-> r, sched |-> sd]
 Next == ~done /\ done' = TRUE /\ UNCHANGED cfg
 Emit == done => PrintT(ToJson(cfg))
 =============================================================================
